@@ -67,7 +67,7 @@ pub fn gen_zero_gate(ch: &mut Choices, curve: Curve) -> Program {
         }
         ops.push(Op::Closure(body));
     }
-    Program { curve, tlabel: ch.below(3) as u8, pre: vec![], ops, owned: ch.chance(64), cap_p: Cap::gen(ch), cap_v: Cap::gen(ch), party_cap: 1, seed: ch.u16() as u64, pc: 0 }
+    Program { curve, tlabel: ch.below(3) as u8, pre: vec![], ops, owned: ch.chance(64), cap_p: Cap::gen(ch), cap_v: Cap::gen(ch), party_cap: 1, seed: ch.u16() as u64, pc: 0, gens: 0 }
 }
 
 fn edit_fields<G: CurveTag>(ch: &mut Choices, m: &mut ProofMirror<G>) -> String {
